@@ -118,18 +118,20 @@ pub fn check_bytes(bytes: &[u8], cuts: &[usize], max_read: usize) -> Result<(boo
     if ds != dr {
         return Err(format!("is_sourcemap_slice = {ds} but is_sourcemap(reader) = {dr} (cuts {cuts:?}, max_read {max_read})"));
     }
-    // data URL of the same payload
-    let url = format!("data:application/json;base64,{}", base64(bytes));
-    let by_url = dec_with("decode_data_url", || decode_data_url(&url))?;
-    match (&a, outcome(&by_url)) {
-        (Err(()), Err(())) => {}
-        (Ok(x), Ok(y)) if x.0 == y.0 => {}
-        (x, y) => {
-            return Err(format!(
-                "decode_data_url of the base64 payload is {} but decode_slice of the payload is {}",
-                if y.is_ok() { "Ok" } else { "Err" },
-                if x.is_ok() { "Ok (or a different map)" } else { "Err" }
-            ))
+    // data URL of the same payload (plain form and the form the library itself writes)
+    for preamble in ["data:application/json;base64,", "data:application/json;charset=utf-8;base64,"] {
+        let url = format!("{preamble}{}", base64(bytes));
+        let by_url = dec_with("decode_data_url", || decode_data_url(&url))?;
+        match (&a, outcome(&by_url)) {
+            (Err(()), Err(())) => {}
+            (Ok(x), Ok(y)) if x.0 == y.0 => {}
+            (x, y) => {
+                return Err(format!(
+                    "decode_data_url({preamble}<base64 payload>) is {} but decode_slice of the payload is {}",
+                    if y.is_ok() { "Ok" } else { "Err" },
+                    if x.is_ok() { "Ok (or a different map)" } else { "Err" }
+                ))
+            }
         }
     }
     Ok((a.is_ok(), reads))
@@ -168,6 +170,7 @@ fn check(c: &Case, obs: &mut Obs) -> Verdict {
     });
     obs.class(if ok { "outcome:ok" } else { "outcome:err" });
     obs.class_if(h > 8192, "header-longer-than-bufreader");
+    obs.class_if(c.bytes.len() - h > 8192, "body-longer-than-bufreader");
     obs.class_if(c.max_read == 1, "1-byte-reads");
     obs.class_if(reads >= 3, ">=3-reads");
     let cut_in_header = c.cuts.iter().any(|x| *x > 0 && *x < h);
@@ -217,6 +220,16 @@ fn body() -> BoxedStrategy<(Vec<u8>, bool)> {
             (b, ok)
         }),
         1 => Just((vec![], false)),
+        // a document larger than the reader's 8 KiB buffer (several refills while parsing)
+        1 => (9_000usize..30_000, any::<bool>()).prop_map(|(n, first)| {
+            let big = "0123456789abcdef".repeat(n / 16 + 1);
+            let s = if first {
+                format!("{{\"sourcesContent\":[\"{big}\"],\"version\":3,\"sources\":[\"a.js\"],\"names\":[],\"mappings\":\"AAAA;AACA\"}}")
+            } else {
+                format!("{{\"version\":3,\"sources\":[\"a.js\"],\"names\":[],\"mappings\":\"AAAA;AACA\",\"sourcesContent\":[\"{big}\"]}}")
+            };
+            (s.into_bytes(), true)
+        }),
     ]
     .boxed()
 }
